@@ -155,6 +155,16 @@ def run(ctx: Ctx) -> int:
         if ev.ec_mul(ev.CURVES[curve], k, (ev.CURVES[curve].gx, ev.CURVES[curve].gy)) != (pn.x, pn.y):
             raise MachineryError("evaluator EC arithmetic disagrees with cryptography")
     n_rand = ctx.pick(6, 60)
+    # one and the same L2 seed used with every hash and every mode, in both orders (state must not leak between derivations)
+    shared_l2 = rng.randbytes(64)
+    for hs in (HASHES, list(reversed(HASHES)), HASHES):
+        for h in hs:
+            rows.append(one_case(terms, h, "nonce", None, shared_l2, None, len(rows)))
+            rows.append(one_case(terms, h, "DH", (251, 6, 2), shared_l2, (7).to_bytes(64, "big"), len(rows)))
+            rows.append(one_case(terms, h, "DH", None, shared_l2, None, len(rows)))
+            for mode in ("ECDH_P256", "ECDH_P384"):
+                rows.append(one_case(terms, h, mode, None, shared_l2, None, len(rows)))
+            ctx.distinct(("shared-seed", h, len(rows)))
     for h in HASHES:
         for _ in range(ctx.pick(20, 300)):
             rows.append(one_case(terms, h, "nonce", None, rng.randbytes(64), None, len(rows)))
